@@ -29,6 +29,9 @@ FIRST_ATTEMPT = {
     "C12-5": "**missed** -> C12 inputs gained long tokens of mixed byte width",
     "C13-5": "**missed** -> half of the C13 histories run in `BDDEnv::default()`; a just-created environment is inspected",
     "C10-6": "**missed** (needs > 64 free variables) -> C10 stage *wide formulas* judged by counting instead of a truth table; C09 and C19 got wide stages too",
+    "C06-8": "**missed** (needs a Kleene chain longer than the number of names) -> C06 / C01 generate bodies with chains of 2^k applications",
+    "C01-8": "not a C01 matter (sparse API orderings): **missed** by C01, caught by C11 and C09",
+    "C03-8": "not a C03 matter (same change as C01-8): **missed** by C03, caught by C11",
     "C14-7": "**missed** (needs separately allocated equal sub-diagrams) -> C14 also exports plain values / nodes of another environment",
 }
 
@@ -51,7 +54,7 @@ def main():
            "of `/verif` whose harness points at it), quick tier, `VERIF_SEED=0`; `/repo` itself was never modified. `tests` = the",
            "repository's own 31-test suite with the change applied (`!!` = the suite itself notices the change: a weak mutant).", "",
            "### C.1 Changes written by independent sub-agents (`/verif/seeded/<ID>[-round]/`)", "",
-           "Seven rounds of 20 sub-agents; each saw only the text of one property (from round 2 on with a short hint at an angle",
+           "Eight rounds of 20 sub-agents; each saw only the text of one property (from round 2 on with a short hint at an angle",
            "not derived from /verif) and its own worktree. Every change compiles, passes the 31 tests, and its demonstration fails",
            "with / passes without the change (re-confirmed in the lab, `meta.json`). `first attempt` says what happened when the",
            "change was first run against the checks as they were at that moment.", "",
